@@ -350,6 +350,24 @@ class FreeEnergy(InterpolatableFunction):
                 first_step=firstStep,
                 **scipyKwargs,
             )
+            if firstStep is None and TEnd != T0:
+                # When the traced minimum does not move with the temperature (e.g. a
+                # symmetric phase), scipy's automatic choice of the first step falls
+                # back to an absolute 1e-6. The resulting cluster of table points next
+                # to T0 makes the second derivative of the interpolated free energy
+                # pure rounding noise at T0. Never start with less than a small
+                # fraction of the maximal step (too large a step is reduced by the
+                # error control of the integrator).
+                minFirstStep = min(1e-2 * dT, abs(TEnd - T0))
+                if ode.h_abs < minFirstStep:
+                    ode = scipyint.RK45(
+                        odeFunction,
+                        T0,
+                        phase0,
+                        TEnd,
+                        first_step=minFirstStep,
+                        **scipyKwargs,
+                    )
             fieldPrevious = np.array(phase0, dtype=float)
             while ode.status == "running":
                 try:
